@@ -48,7 +48,7 @@ func Load(cfg LoadConfig) (*Program, error) {
 	var errs []string
 	packages.Visit(initial, nil, func(p *packages.Package) {
 		for _, e := range p.Errors {
-			errs = append(errs, e.Error())
+			errs = append(errs, fmt.Sprintf("%s: %s", e.Pos, e.Msg))
 		}
 	})
 	if len(errs) > 0 {
